@@ -82,8 +82,8 @@ theorem C09_first_match (cfg : Cfg) (env : Env) (id : Bytes) (old : Nat) (nextRa
   | some pn =>
     obtain ⟨next, nextNote⟩ := pn
     simp only [hp, Option.map_some] at hr
-    have hsas : ∀ ctr, ((signAndSet cfg env nextNote ctr).err = .none ∨ (signAndSet cfg env nextNote ctr).err = .signFailed ∨
-        (signAndSet cfg env nextNote ctr).err = .storage) := by
+    have hsas : ∀ ctr, ((signAndSet cfg env l nextNote ctr).err = .none ∨ (signAndSet cfg env l nextNote ctr).err = .signFailed ∨
+        (signAndSet cfg env l nextNote ctr).err = .storage) := by
       intro ctr; unfold signAndSet
       repeat' split
       all_goals simp
